@@ -35,6 +35,8 @@ def build(name, test_pkg, files, hide_repo_tests=True, extra_overlay=None):
     ov = os.path.join(work, "overlay.json")
     json.dump({"Replace": overlay}, open(ov, "w"), indent=1)
     out = os.path.join(work, "e.test")
+    if os.path.exists(out):
+        os.remove(out)  # never run a stale binary if the build fails
     cmd = ["go", "test", "-c", "-overlay", ov, "-modfile", mf, "-vet=off", "-ldflags=-checklinkname=0", "-o", out, "./" + test_pkg]
     vlib.run(cmd, cwd=vlib.REPO)
     vlib.log("[build] %s in %.1fs" % (name, time.time() - t0))
